@@ -111,6 +111,57 @@ pub fn run(out: &mut Out, tier: &str, seed: u64) {
         latch_cases(out, &bad);
         let ss = scalar_stream(&mut rng);
         latch_cases(out, &ss);
+        // a malformed document behind documents that were already delivered: the error of the later document
+        // locates itself in the whole input (offset, line and column), through streams and repeated deserialize()
+        if label != "valid" {
+            let mut multi: Vec<u8> = Vec::new();
+            for _ in 0..rng.range(1, 3) {
+                let g2 = gen::gen_doc(&mut rng, &cfg);
+                let mut d2 = gen::render_doc(&g2, &mut rng, &cfg);
+                if !(d2.first() == Some(&b'[') || d2.first() == Some(&b'{')) {
+                    d2 = format!("[{}]", String::from_utf8_lossy(&d2)).into_bytes();
+                }
+                gen::add_newlines(&mut d2, &mut rng);
+                multi.extend_from_slice(&d2);
+                multi.extend_from_slice(if rng.chance(1, 2) { b"\n" } else { b" \n\n  " });
+            }
+            multi.extend_from_slice(&bad);
+            out.count("multi-document streams");
+            let first_err = |r: Result<Option<sonic_rs::Error>, String>| -> Result<Result<(), ErrInfo>, String> {
+                r.map(|o| match o {
+                    Some(e) => Err(entry::err_info(&e)),
+                    None => Ok(()),
+                })
+            };
+            let r = entry::guarded(|| sonic_rs::Deserializer::from_slice(&multi).into_stream::<Value>().find_map(|x| x.err()));
+            report(out, "stream<Value> later document", &multi, &first_err(r));
+            let r = entry::guarded(|| sonic_rs::Deserializer::from_slice(&multi).into_stream::<serde_json::Value>().find_map(|x| x.err()));
+            report(out, "stream<serde_json::Value> later document", &multi, &first_err(r));
+            let r = entry::guarded(|| sonic_rs::Deserializer::from_slice(&multi).into_stream::<sonic_rs::OwnedLazyValue>().find_map(|x| x.err()));
+            report(out, "stream<OwnedLazyValue> later document", &multi, &first_err(r));
+            let r = entry::guarded(|| {
+                let mut de = sonic_rs::Deserializer::from_slice(&multi);
+                for _ in 0..8 {
+                    if let Err(e) = de.deserialize::<Value>() {
+                        return Some(e);
+                    }
+                }
+                None
+            });
+            report(out, "deserialize::<Value>() repeated", &multi, &first_err(r));
+            if let Ok(text) = std::str::from_utf8(&multi) {
+                let r = entry::guarded(|| {
+                    let mut de = sonic_rs::Deserializer::from_str(text);
+                    for _ in 0..8 {
+                        if let Err(e) = de.deserialize::<Value>() {
+                            return Some(e);
+                        }
+                    }
+                    None
+                });
+                report(out, "from_str deserialize::<Value>() repeated", &multi, &first_err(r));
+            }
+        }
     }
 }
 
